@@ -102,6 +102,9 @@ pub(crate) fn chunk_path(_this: &Config, chunk_id: ChunkId) -> String {
 }
 
 pub(crate) fn open_chunk_file<T>(_config: &Config, chunk_id: ChunkId) -> Result<File, io::Error> {
+    if let Some(s) = unsafe { gfs::FORCE_SLOT } {
+        return gfs::op_open(s);
+    }
     match gfs::find_chunk(chunk_id.0) {
         Some(s) => gfs::op_open(s),
         None => Err(io::Error::from(io::ErrorKind::NotFound)),
@@ -185,4 +188,29 @@ pub(crate) fn io_error_display(_this: &io::Error, _f: &mut core::fmt::Formatter<
 /// object that CBMC flattens into the formula at every access).
 pub(crate) fn vec_with_capacity<T>(_capacity: usize) -> Vec<T> {
     Vec::new()
+}
+
+// ---- Config accessors as ghost constants ----
+// A `Config` always sits behind an `Arc`; a field read back from that heap
+// object is not a constant for CBMC's symbolic execution, and every branch on
+// it (BufReader's buffer bypass, "truncation enabled?") is then explored both
+// ways together with all drop glue behind it. Harnesses that need a *chosen*
+// configuration stub the accessor by a ghost constant and tie it to the real
+// field with an assumption; the accessors themselves (field or default) are
+// checked by c10_cfg_accessors.
+pub(crate) static mut CFG_READ_BUF: usize = 0;
+pub(crate) static mut CFG_TRUNCATE: bool = true;
+
+pub(crate) fn cfg_read_buffer_size(this: &Config) -> usize {
+    let v = unsafe { CFG_READ_BUF };
+    #[cfg(kani)]
+    kani::assume(this.read_buffer_size == Some(v));
+    v
+}
+
+pub(crate) fn cfg_truncate_incomplete_record(this: &Config) -> bool {
+    let v = unsafe { CFG_TRUNCATE };
+    #[cfg(kani)]
+    kani::assume(this.truncate_incomplete_record.unwrap_or(true) == v);
+    v
 }
